@@ -718,7 +718,7 @@ class LLUDPMessageLogEntry(AbstractMessageLogEntry):
         self._deserializer = self.message.deserializer
         message.deserializer = None
         try:
-            self._frozen_message = pickle.dumps(self._message, protocol=pickle.HIGHEST_PROTOCOL)
+            self._frozen_message = pickle.dumps(message, protocol=pickle.HIGHEST_PROTOCOL)
         finally:
             message.deserializer = self._deserializer
         self._message = None
